@@ -195,6 +195,26 @@ def sweep_shared_chain(quick):
                 yield {"sweep": "sharedchain", "model": m}
 
 
+def sweep_high_slots(quick):
+    """items stored in the highest (and other far-away) slots of their directory areas: performance 511, patch 1023,
+    partial 4095, sample 8191, volume 127 -- one level at a time and all together"""
+    def model(perf=0, patch=0, partial=0, sample=0, vol=0):
+        m = {"volumes": [], "performances": {perf: {"name": "PERF", "patches": [patch]}},
+             "patches": {patch: {"name": "PATCH", "partials": [partial] + [-1] * 86 + [partial]}},
+             "partials": {partial: {"name": "PART", "samples": [sample, -1, 1 if sample != 1 else 2]}},
+             "samples": {sample: {"name": "HIGH", "chain": [3, 2], "points": [0, 0, CW + 11, 0, 9], "mode": 0, "seq": 3},
+                         (1 if sample != 1 else 2): {"name": "LOW", "chain": [5], "points": [0, 0, 99, 0, 9], "mode": 0, "seq": 4}}}
+        m["volumes"] = [{"name": "V%d" % i, "perfs": []} for i in range(vol)] + [{"name": "VOL", "perfs": [perf]}]
+        m["count_mode"] = "max"
+        return m
+    tops = {"perf": 511, "patch": 1023, "partial": 4095, "sample": 8191}
+    for k, top in tops.items():
+        for v in sorted({top, top // 2, top // 2 + 1, 7}):
+            yield {"sweep": "highslots", "model": model(**{k: v}), "flips": [k, v]}
+    yield {"sweep": "highslots", "model": model(**tops), "flips": ["all-top"]}
+    yield {"sweep": "highslots", "model": model(vol=3), "flips": ["vol", 3]}
+
+
 def sweep_fat_header(quick):
     """the redundant words of the FAT area (free-cluster count in word 1, version flags in the last two words) take
     consistent, stale and garbage values; chains of 1..4 clusters in ascending and descending order"""
@@ -241,7 +261,7 @@ def norm_model(m):
 
 def nontrivial(case):
     m = case["model"]
-    if case["sweep"] in ("topology", "slots"):
+    if case["sweep"] in ("topology", "slots", "highslots"):
         return bool(case.get("flips"))
     for s in m["samples"].values():
         ch = s["chain"]
@@ -294,7 +314,7 @@ class Check(CheckBase):
             "volume->performance->patch->partial->sample relations [thorough: all pairs of flips], no volumes, four "
             "samples per partial, unreferenced sample, orphan performance; (slots) every assignment of a partial's four sample "
             "slots over {unused, 3 samples}, sparse and completely filled partial / patch / performance lists incl. the last slot; (fatheader) "
-            "free-cluster count word x FAT version x chain length 1,2,4 x order; (sharedchain) two samples in one chain: 6 chain orders x 6 offset pairs x same partial / other performance; (names) 9 families of special name shapes x "
+            "free-cluster count word x FAT version x chain length 1,2,4 x order; (highslots) items in the highest / middle slots of each directory area (performance 511, patch 1023, partial 4095, sample 8191); (sharedchain) two samples in one chain: 6 chain orders x 6 offset pairs x same partial / other performance; (names) 9 families of special name shapes x "
             "3 volume/performance names, judged by content only. non-trivial = permuted chain, cluster_top>0, "
             "reverse mode, window ending on a cluster boundary, or a flipped edge")
     assumptions = ["independent S-7xx writer (mcv/gen/roland.py) and RIFF walker are correct",
@@ -302,7 +322,7 @@ class Check(CheckBase):
 
     def shards(self):
         cases = []
-        for sw in (sweep_window, sweep_header, sweep_fat_header, sweep_endmarks, sweep_chains, sweep_topology, sweep_slots, sweep_names, sweep_shared_chain):
+        for sw in (sweep_window, sweep_header, sweep_fat_header, sweep_endmarks, sweep_chains, sweep_topology, sweep_slots, sweep_names, sweep_shared_chain, sweep_high_slots):
             cases.extend(sw(self.quick))
         return self.chunk(cases, 6 if self.quick else 20)
 
